@@ -114,6 +114,15 @@ class Timeout(Exception):
     pass
 
 
+class _TooManyHangs(Exception):
+    pass
+
+
+# calls that ran into the watchdog in this shard: every one costs 60 s of
+# wall clock, so a shard is abandoned (and says so) after the third
+_hangs = [0]
+
+
 def _alarm(signum, frame):
     raise Timeout()
 
@@ -271,10 +280,13 @@ def run_case(case, acc, tier, bound):
         except (InsufficientResourceError, InvalidConstraintError) as e:
             exc = e
         except (Timeout, BudgetExceeded):
+            _hangs[0] += 1
             acc.violation(dict(kind="no_termination", placer=case["placer"]),
                           dict(case, choices=list(ch.choices)),
                           "placer %s did not terminate within its budget"
                           % case["placer"], size=csize(case))
+            if _hangs[0] >= 3:
+                raise _TooManyHangs()
             return
         except Exception as e:
             acc.violation(dict(kind="exception", exc=type(e).__name__,
@@ -592,7 +604,12 @@ def must_succeed(case):   # noqa  (partial chip orders waive completeness)
 
 
 def run_shard(params, tier, acc):
-    globals()["fam_" + params["fam"]](params, tier, acc)
+    _hangs[0] = 0
+    try:
+        globals()["fam_" + params["fam"]](params, tier, acc)
+    except _TooManyHangs:
+        acc.cap("shard %r abandoned after three placer calls that did not "
+                "terminate" % (params,))
 
 
 def replay(case, acc):
